@@ -111,12 +111,17 @@ def schedRecCmd (ws : List String) : String :=
   | _ => "bad-op"
 
 /-- `rec-tick kind failing K cycles`: while a test is open an interval recorder persists at every elapsed interval,
-whatever the collector returned before, and EndTest reports the collector errors of the cycle -/
+whatever the collector returned before, EndTest reports the collector errors of the cycle, and after EndTest or Reset
+(`reset`: the cycle is closed by Reset) nothing is persisted any more -/
 def recTickCmd (ws : List String) : String :=
   match ws with
   | [_, fa, _, c] =>
     match c.toNat? with
-    | some c => joinSp (List.replicate c s!"ticks=true,endErr={if fa == "-" then "false" else "true"}")
+    | some c => joinSp (List.replicate c s!"ticks=true,endErr={if fa == "-" then "false" else "true"},quiet=true")
+    | none => "bad-op"
+  | [_, _, _, c, "reset"] =>
+    match c.toNat? with
+    | some c => joinSp (List.replicate c "ticks=true,reset,quiet=true")
     | none => "bad-op"
   | _ => "bad-op"
 
